@@ -481,7 +481,7 @@ class StmtMixin:
         # 1. established on entry
         self.emit("inv.init", spec.label, st, inv_at(st, z3.IntVal(0)))
         # 2. preserved by an arbitrary iteration
-        hs = self.havoc_loop(st, mod)
+        hs = self.havoc_loop(st, mod, spec)
         k = z3.Int(fresh_name("k"))
         hs.pc = hs.pc + (k >= 0, k < n)
         hs.pc = hs.pc + (self.as_bool(inv_at(hs, k)),)
@@ -489,7 +489,7 @@ class StmtMixin:
         hs.env[f"__k{ordinal}__"] = k
         self.assign_target(node.target, elem(k), hs)
         head_env = dict(hs.env)
-        body_outs = self.exec_block(node.body, hs) if self.feasible(hs) else []
+        body_outs = self.in_loop_frame(spec, lambda: self.exec_block(node.body, hs) if self.feasible(hs) else [])
         for o in body_outs:
             if o.kind in ("normal", "continue"):
                 if spec.hints:
@@ -507,7 +507,7 @@ class StmtMixin:
             else:
                 outs.append(o)
         # 3. exit: invariant at k = n, then the else clause
-        es = self.havoc_loop(st, mod)
+        es = self.havoc_loop(st, mod, spec)
         es.pc = es.pc + (self.as_bool(inv_at(es, n)),)
         if node.orelse:
             outs += self.exec_block(node.orelse, es)
@@ -522,7 +522,19 @@ class StmtMixin:
             return z3.BoolVal(t)
         return t
 
-    def havoc_loop(self, st, mod):
+    def in_loop_frame(self, spec, thunk):
+        """run a loop body; heap writes are checked against the loop's own frame when it declares one"""
+        if spec is None or spec.modifies is None or self.call_depth != 0:
+            return thunk()
+        if not hasattr(self, "loop_frames"):
+            self.loop_frames = []
+        self.loop_frames.append((spec.label, list(spec.modifies)))
+        try:
+            return thunk()
+        finally:
+            self.loop_frames.pop()
+
+    def havoc_loop(self, st, mod, spec=None):
         hs = st.copy()
         for name in mod:
             cur = st.env[name]
@@ -534,7 +546,8 @@ class StmtMixin:
             hs.env[name] = nv
             hs.pc = hs.pc + tuple(type_constraints(nv))
         con = self.current[0]
-        self.havoc_heap(hs, [k for k in con.modifies if k != "*"])
+        frame = con.modifies if spec is None or spec.modifies is None else spec.modifies
+        self.havoc_heap(hs, [k for k in frame if k != "*"])
         return hs
 
     def generalize(self, v):
@@ -587,7 +600,7 @@ class StmtMixin:
                 raise Unsupported(f"MOVED: the invariant of loop #{ordinal} refers to a variable that no longer exists ({ex})")
 
         self.emit("inv.init", spec.label, st, inv_at(st, z3.IntVal(0)))
-        hs = self.havoc_loop(st, mod)
+        hs = self.havoc_loop(st, mod, spec)
         k = z3.Int(fresh_name("k"))
         hs.pc = hs.pc + (k >= 0, self.as_bool(inv_at(hs, k)))
         c = self.ev_truth(node.test, hs)
@@ -596,7 +609,7 @@ class StmtMixin:
         measure0 = spec.decreases(Ctx(self, body_st, self.entry_state), Vars(body_st.env)) if spec.decreases else None
         head_env = dict(body_st.env)
         if self.feasible(body_st):
-            for o in self.exec_block(node.body, body_st):
+            for o in self.in_loop_frame(spec, lambda: self.exec_block(node.body, body_st)):
                 if o.kind in ("normal", "continue"):
                     if spec.hints:
                         vv = Vars(o.state.env)
@@ -612,7 +625,7 @@ class StmtMixin:
                     outs.append(Outcome("normal", o.state))
                 else:
                     outs.append(o)
-        es = self.havoc_loop(st, mod)
+        es = self.havoc_loop(st, mod, spec)
         k2 = z3.Int(fresh_name("k"))
         es.pc = es.pc + (k2 >= 0, self.as_bool(inv_at(es, k2)))
         c2 = self.ev_truth(node.test, es)
